@@ -17,7 +17,7 @@ import (
 
 func init() {
 	register(&Check{ID: "C08", Level: "exploration",
-		Rule: "keys with TTL vectors {0,1,2,3,5,8, mixed, 2^31, 2^32-1, OPT present} x rcodes {0,2,3,9} x record-less NOERROR x TC x failed exchanges x maximum_ttl {default, 3}, probed at scheduled ages before and after each key's reference lifetime in one wall-clock window; displacement scenario through the prefetch window; " +
+		Rule: "keys with TTL vectors {0,1,2,3,5,8, mixed, 2^31, 2^32-1, OPT present} x rcodes {0,2,3,9} x record-less NOERROR x TC x failed exchanges x maximum_ttl {default, 3}, probed at scheduled ages before and after each key's reference lifetime in one wall-clock window; displacement scenario through the prefetch window (refresh answered SERVFAIL / NXDOMAIN / REFUSED / rcode 9 / TC=1); " +
 			"one evaluation = one probe response judged; distinct non-trivial = distinct (config, key kind, probe phase: fresh / aged-from-cache / after-expiry) combinations observed",
 		Run: runC08})
 }
